@@ -6,10 +6,12 @@
 
     Layout (a FUNCTION of the model state, not just a relation):
       array 0 of the heap       the sync.Pool: the pooled pointers, most recent first
-      array x+1                 the node with id x: [state; prev; next; refCnt; key; val]
-      pointer to node x         [ptr x = x + 2] (GoLite: array id + 1); nil = 0
+      array 1                   a log [lg] that the map code never touches (the callbacks of the
+                                cache built on the map record their calls there: EC_GenVocab.v)
+      array x+2                 the node with id x: [state; prev; next; refCnt; key; val]
+      pointer to node x         [ptr x = x + 3] (GoLite: array id + 1); nil = 0
       state                     0/1/2 = rlLast/rlOk/rlDeleted ([st_code])
-    [gheap pl mh] is the GoLite heap of the model heap [mh] with pool [pl].
+    [gheap lg pl mh] is the GoLite heap of the model heap [mh] with pool [pl] and log [lg].
 
     Name clashes: [Ok]/[NoFuel]/[bind]/[heap] are GoLite's here; the model's are
     written [IMapBase.Ok], [IMapBase.Panic], [IMapBase.NoFuel], [IMap.heap]. *)
@@ -28,12 +30,12 @@ Notation MNoFuel := (@IMapBase.NoFuel _) (only parsing).
 
 (** * Encoding *)
 
-Definition ptr (x : nat) : Z := Z.of_nat x + 2.
+Definition ptr (x : nat) : Z := Z.of_nat x + 3.
 Definition optr (o : option nat) : Z := match o with Some x => ptr x | None => 0 end.
 Definition st_code (s : nstate) : Z := match s with StLast => 0 | StOk => 1 | StDeleted => 2 end.
 Definition enc (n : node) : list Z :=
   [st_code (n_st n); optr (n_prev n); optr (n_next n); n_ref n; n_key n; n_val n].
-Definition gheap (pl : list nat) (mh : mheap) : heap := map ptr pl :: map enc mh.
+Definition gheap (lg : list Z) (pl : list nat) (mh : mheap) : heap := map ptr pl :: lg :: map enc mh.
 
 (* the result of a model function as an outcome of generated code *)
 Definition lift {X Y : Type} (r : res X) (f : X -> outcome Y) : outcome Y :=
@@ -46,7 +48,7 @@ Definition lift {X Y : Type} (r : res X) (f : X -> outcome Y) : outcome Y :=
 Lemma ptr_pos x : 0 < ptr x. Proof. unfold ptr. lia. Qed.
 Lemma ptr_eqb0 x : (ptr x =? 0) = false. Proof. unfold ptr. lia. Qed.
 Lemma ptr_inj x y : ptr x = ptr y -> x = y. Proof. unfold ptr. lia. Qed.
-Lemma obj_arr_ptr x : obj_arr (ptr x) = S x. Proof. unfold obj_arr, ptr. lia. Qed.
+Lemma obj_arr_ptr x : obj_arr (ptr x) = S (S x). Proof. unfold obj_arr, ptr. lia. Qed.
 Lemma optr_some x : optr (Some x) = ptr x. Proof. reflexivity. Qed.
 
 (** * The model heap: nodes by id *)
@@ -160,46 +162,46 @@ Proof. intros [L R] H x Hx. rewrite R. apply H. lia. Qed.
 
 (** * The GoLite side: field loads and stores on [gheap] *)
 
-Lemma arr_get_gheap pl mh x : (x < length mh)%nat -> arr_get (gheap pl mh) (S x) = enc (nd mh x).
+Lemma arr_get_gheap lg pl mh x : (x < length mh)%nat -> arr_get (gheap lg pl mh) (S (S x)) = enc (nd mh x).
 Proof.
   intros H. unfold arr_get, gheap, nd. cbn [nth].
   rewrite (nth_indep _ [] (enc zero_node)) by (rewrite map_length; exact H). apply map_nth.
 Qed.
 
-Lemma gheap_upd pl mh x f : (x < length mh)%nat ->
-  arr_set (gheap pl mh) (S x) (enc (f (nd mh x))) = gheap pl (upd mh x f).
+Lemma gheap_upd lg pl mh x f : (x < length mh)%nat ->
+  arr_set (gheap lg pl mh) (S (S x)) (enc (f (nd mh x))) = gheap lg pl (upd mh x f).
 Proof.
-  intros H. unfold arr_set, gheap. cbn [firstn skipn app]. f_equal. unfold nd.
+  intros H. unfold arr_set, gheap. cbn [firstn skipn app]. f_equal. f_equal. unfold nd.
   revert x H. induction mh as [|n t IH]; intros [|x] H; cbn [length] in H; try lia; cbn [map upd firstn skipn nth app].
   - reflexivity.
   - f_equal. apply IH. lia.
 Qed.
 
-Lemma length_gheap pl mh : length (gheap pl mh) = S (length mh).
+Lemma length_gheap lg pl mh : length (gheap lg pl mh) = S (S (length mh)).
 Proof. unfold gheap. cbn [length]. rewrite map_length. reflexivity. Qed.
 
-Lemma gheap_new pl mh : gheap pl mh ++ [repeat 0 6] = gheap pl (mh ++ [zero_node]).
+Lemma gheap_new lg pl mh : gheap lg pl mh ++ [repeat 0 6] = gheap lg pl (mh ++ [zero_node]).
 Proof. unfold gheap. rewrite map_app. reflexivity. Qed.
 
 Section Steps.
 Context {B : Type}.
 
-Lemma bind_ld x k (kk : Z -> M B) pl mh : (x < length mh)%nat ->
-  bind (fld_load (ptr x) k) kk (gheap pl mh) = kk (nth k (enc (nd mh x)) 0) (gheap pl mh).
+Lemma bind_ld x k (kk : Z -> M B) lg pl mh : (x < length mh)%nat ->
+  bind (fld_load (ptr x) k) kk (gheap lg pl mh) = kk (nth k (enc (nd mh x)) 0) (gheap lg pl mh).
 Proof.
   intros H. rewrite bind_fld_load by apply ptr_pos. rewrite obj_arr_ptr, arr_get_gheap by exact H. reflexivity.
 Qed.
 
-Lemma bind_st x k v (kk : unit -> M B) pl mh f : (x < length mh)%nat ->
+Lemma bind_st x k v (kk : unit -> M B) lg pl mh f : (x < length mh)%nat ->
   zsplice (enc (nd mh x)) (Z.of_nat k) [v] = enc (f (nd mh x)) ->
-  bind (fld_store (ptr x) k v) kk (gheap pl mh) = kk tt (gheap pl (upd mh x f)).
+  bind (fld_store (ptr x) k v) kk (gheap lg pl mh) = kk tt (gheap lg pl (upd mh x f)).
 Proof.
   intros H E. rewrite bind_fld_store by apply ptr_pos. rewrite obj_arr_ptr, arr_get_gheap by exact H.
   rewrite E, gheap_upd by exact H. reflexivity.
 Qed.
 
-Lemma bind_new (kk : Z -> M B) pl mh :
-  bind (obj_new 6) kk (gheap pl mh) = kk (ptr (length mh)) (gheap pl (mh ++ [zero_node])).
+Lemma bind_new (kk : Z -> M B) lg pl mh :
+  bind (obj_new 6) kk (gheap lg pl mh) = kk (ptr (length mh)) (gheap lg pl (mh ++ [zero_node])).
 Proof.
   rewrite bind_obj_new, length_gheap, gheap_new. f_equal. unfold ptr. lia.
 Qed.
@@ -226,25 +228,25 @@ Definition lit_Get (c : option nat) (hd : Z) : M Z := fun h =>
 
 (* what the tie assumes of the parameters that stand for the pool *)
 Definition put_spec (pool_Put : Z -> Z -> M unit) : Prop :=
-  forall pl mh x, pool_Put 0 (ptr x) (gheap pl mh) = Ok (tt, gheap (x :: pl) mh).
+  forall lg pl mh x, pool_Put 0 (ptr x) (gheap lg pl mh) = Ok (tt, gheap lg (x :: pl) mh).
 Definition get_spec (pool_Get : option nat -> Z -> M Z) : Prop :=
-  forall c pl mh, pool_Get c 0 (gheap pl mh) =
-    let '(x, mh', pl') := pool_get mh pl c in Ok (ptr x, gheap pl' mh').
+  forall c lg pl mh, pool_Get c 0 (gheap lg pl mh) =
+    let '(x, mh', pl') := pool_get mh pl c in Ok (ptr x, gheap lg pl' mh').
 
 Lemma lit_put_spec : put_spec lit_Put.
-Proof. intros pl mh x. reflexivity. Qed.
+Proof. intros lg pl mh x. reflexivity. Qed.
 
 Lemma remove_nth_map {A C} (f : A -> C) n l : remove_nth n (map f l) = map f (remove_nth n l).
 Proof. revert n. induction l as [|a t IH]; intros [|n]; cbn [remove_nth map]; try reflexivity. rewrite IH. reflexivity. Qed.
 
 Lemma lit_get_spec : get_spec lit_Get.
 Proof.
-  intros c pl mh. unfold lit_Get, pool_get.
-  assert (F : Ok (Z.of_nat (length (gheap pl mh)) + 1, gheap pl mh ++ [repeat 0 6]) =
-              Ok (ptr (length mh), gheap pl (mh ++ [zero_node]))).
+  intros c lg pl mh. unfold lit_Get, pool_get.
+  assert (F : Ok (Z.of_nat (length (gheap lg pl mh)) + 1, gheap lg pl mh ++ [repeat 0 6]) =
+              Ok (ptr (length mh), gheap lg pl (mh ++ [zero_node]))).
   { rewrite length_gheap, gheap_new. f_equal. f_equal. unfold ptr. lia. }
   destruct c as [n|]; [|exact F].
-  change (arr_get (gheap pl mh) (Z.to_nat 0)) with (map ptr pl).
+  change (arr_get (gheap lg pl mh) (Z.to_nat 0)) with (map ptr pl).
   rewrite nth_error_map. destruct (nth_error pl n) as [x|]; cbn [option_map]; [|exact F].
   rewrite remove_nth_map. reflexivity.
 Qed.
@@ -357,13 +359,13 @@ Ltac im_step :=
   match goal with
   | |- context [bind (bind ?m ?k) ?k' ?h] => rewrite (bind_assoc m k k' h)
   | |- context [bind (ret ?a) ?k ?h] => rewrite (bind_ret_l a k h)
-  | |- context [bind (fld_load (ptr ?x) ?k) ?kk (gheap ?pl ?H)] =>
-      rewrite (bind_ld x k kk pl H) by len_side; cbn [nth enc]
+  | |- context [bind (fld_load (ptr ?x) ?k) ?kk (gheap ?lg ?pl ?H)] =>
+      rewrite (bind_ld x k kk lg pl H) by len_side; cbn [nth enc]
   | |- context [bind (fld_load 0 ?k) ?kk ?h] => rewrite (bind_fld_load_nil k kk h 0) by lia
   | |- context [bind (fld_store 0 ?k ?v) ?kk ?h] => rewrite (bind_fld_store_nil 0 k v kk h) by lia
-  | |- context [bind (fld_store (ptr ?x) ?k ?v) ?kk (gheap ?pl ?H)] =>
-      let f := st_fun k v in rewrite (bind_st x k v kk pl H f) by first [len_side | reflexivity]
-  | |- context [bind (obj_new 6) ?kk (gheap ?pl ?H)] => rewrite (bind_new kk pl H)
+  | |- context [bind (fld_store (ptr ?x) ?k ?v) ?kk (gheap ?lg ?pl ?H)] =>
+      let f := st_fun k v in rewrite (bind_st x k v kk lg pl H f) by first [len_side | reflexivity]
+  | |- context [bind (obj_new 6) ?kk (gheap ?lg ?pl ?H)] => rewrite (bind_new kk lg pl H)
   end.
 
 Ltac m_step :=
